@@ -70,11 +70,15 @@ Definition get_hex (def : Z) (check_flag : bool) (s : list ch) : Z * list ch :=
   | Some _ => let '(no, s2) := take_hex 0 s1 in (no * flag, s2)
   end.
 
+(* flag.wrapping_mul(v): the only product of a sign and a 64-bit value that overflows is -1 * isize::MIN, which wraps
+   to isize::MIN (the "no value" default of the note parameters passes through `-$` / `-0x` unchanged) *)
+Definition wrap_sign (z : Z) : Z := if z =? 9223372036854775808 then -9223372036854775808 else z.
+
 (* get_int(def) *)
 Definition get_int (def : Z) (s : list ch) : Z * list ch :=
   let '(flag, s1) := if eq_char s c_MINUS then (-1, tl s) else (1, s) in
   if prefixb [c_0; c_x] s1 || eq_char s1 c_DOLLAR then
-    let '(v, s2) := get_hex def true s1 in (flag * v, s2)
+    let '(v, s2) := get_hex def true s1 in (wrap_sign (flag * v), s2)
   else if prefixb [c_0; c_o] s1 then
     let s2 := skipn 2 s1 in
     if is_oct_digit (peek0 s2) && negb (match s2 with [] => true | _ => false end) then
